@@ -8,6 +8,8 @@ import (
 	"os"
 	"path/filepath"
 	"runtime"
+	"runtime/pprof"
+	"runtime/debug"
 	"sort"
 	"strconv"
 	"strings"
@@ -49,7 +51,7 @@ func main() {
 	repo := fs.String("repo", "/repo", "repository under test")
 	verif := fs.String("verif", "/verif", "verification directory")
 	workers := fs.Int("workers", runtime.NumCPU(), "solver workers")
-	par := fs.Int("par", 8, "harnesses executed in parallel")
+	par := fs.Int("par", 12, "harnesses executed in parallel")
 	dump := fs.String("dump", "", "dump failing/unknown scripts to this directory")
 	verbose := fs.Bool("v", false, "verbose")
 	noEvidence := fs.Bool("no-evidence", false, "do not write the evidence file")
@@ -59,8 +61,18 @@ func main() {
 		fs.Parse(os.Args[3:])
 	}
 	seed, _ := strconv.Atoi(getenvDefault("VERIF_SEED", "0"))
+	debug.SetGCPercent(400)
+	if pf := os.Getenv("GOSMT_PROF"); pf != "" {
+		f, _ := os.Create(pf)
+		pprof.StartCPUProfile(f)
+		defer pprof.StopCPUProfile()
+	}
 	switch cmd {
 	case "check":
+		rc := check(prop, *tier, *only, *repo, *verif, *workers, *par, seed, *dump, *verbose, *noEvidence)
+		pprof.StopCPUProfile()
+		os.Exit(rc)
+	case "check-old":
 		os.Exit(check(prop, *tier, *only, *repo, *verif, *workers, *par, seed, *dump, *verbose, *noEvidence))
 	default:
 		fmt.Println("unknown command", cmd)
@@ -160,6 +172,7 @@ func check(prop, tier, only, repoDir, verifDir string, workers, par, seed int, d
 	replays := 0
 	paths, instrs := 0, 0
 	knownSeen := map[string]bool{}
+	reachOK := map[string]bool{}
 	for _, hr := range results {
 		paths += hr.Runs
 		instrs += hr.Instrs
@@ -187,12 +200,12 @@ func check(prop, tier, only, repoDir, verifDir string, workers, par, seed int, d
 				if ob.Result == "sat" {
 					nReachOK++
 					sum.Verdict = "reachable"
+					reachOK[ob.Harness+"|"+ob.Label] = true
 				} else {
-					sum.Verdict = "UNREACHABLE(" + ob.Result + ")"
-					nInc++
-					msg := fmt.Sprintf("INCONCLUSIVE property=%s harness=%s vacuity witness %s is %s", prop, ob.Harness, ob.Label, ob.Result)
-					inconclusive = append(inconclusive, msg)
-					fmt.Println(msg)
+					sum.Verdict = "unreachable-on-this-path(" + ob.Result + ")"
+					if _, ok := reachOK[ob.Harness+"|"+ob.Label]; !ok {
+						reachOK[ob.Harness+"|"+ob.Label] = false
+					}
 				}
 				if len(samples) < 400 {
 					samples = append(samples, sum)
@@ -265,6 +278,29 @@ func check(prop, tier, only, repoDir, verifDir string, workers, par, seed int, d
 		}
 		if hr.Spec.Expect == "violation" {
 			// self-test harnesses are not part of registered checks
+		}
+	}
+	for _, hr := range results {
+		if len(hr.Unsupported) > 0 {
+			continue
+		}
+		declared := 0
+		for k, ok := range reachOK {
+			if strings.HasPrefix(k, hr.Spec.Name+"|") {
+				declared++
+				if !ok {
+					nInc++
+					msg := fmt.Sprintf("INCONCLUSIVE property=%s harness=%s vacuity witness %s is unreachable on every path", prop, hr.Spec.Name, strings.TrimPrefix(k, hr.Spec.Name+"|"))
+					inconclusive = append(inconclusive, msg)
+					fmt.Println(msg)
+				}
+			}
+		}
+		if declared == 0 {
+			nInc++
+			msg := fmt.Sprintf("INCONCLUSIVE property=%s harness=%s has no reachable vacuity witness", prop, hr.Spec.Name)
+			inconclusive = append(inconclusive, msg)
+			fmt.Println(msg)
 		}
 	}
 	for _, f := range kf.Findings {
